@@ -90,13 +90,13 @@ def run(ctx, rep):
     rep.rule("R19.3", "frame: 4-byte big-endian length + flag byte, payload, newline; zlib only when enabled and above the threshold")
     rep.rule("R19.4", "message kinds, boxing labels, handler numbers have their published values, by name and by role")
     rep.rule("R19.5", "message layout: (kind, seq, payload); requests carry (handler, boxed args); boxed values are (label, value)")
-    rep.rule("R19.6", "the writer selects the encoding by exact type only (no value-keyed shortcut or memo) (= R04.2)")
+    rep.rule("R19.6", "what goes by value is decided by exact type alone and encoded by exact type alone (= R04.1, R04.2)")
     rep.assume("the reference table sa/ref/wire_5x.json is the published 5.x format (cross-validated against the documented "
                "hex example by sa/ref/refcodec.py at setup time)", "zlib and struct produce what their documentation says")
     ref = load_ref()
     b = ref["brine"]
     m = c04.Model(ctx)
-    K.share(ctx, rep, "c04", lambda o: o.rule == "R04.2", "R19.6", floor=4)
+    K.share(ctx, rep, "c04", lambda o: o.rule in ("R04.1", "R04.2"), "R19.6", floor=8)
     rows = 0
 
     # ------------------------------------------------------------------ R19.1
